@@ -11,12 +11,16 @@ import (
 	"encoding/json"
 	"fmt"
 	"math/rand"
+	"net/url"
 	"os"
 	"sort"
 	"strings"
 	"sync"
 	"testing"
+	"time"
 
+	clientv3 "go.etcd.io/etcd/client/v3"
+	"go.uber.org/zap"
 	appsv1 "k8s.io/api/apps/v1"
 	autoscalingv2 "k8s.io/api/autoscaling/v2"
 	batchv1 "k8s.io/api/batch/v1"
@@ -134,6 +138,83 @@ func opGenEnv(rng *rand.Rand) map[string]string {
 	maybe(20, "KAFSCALE_LOG_LEVEL", "debug", "warn")
 	maybe(10, "KAFSCALE_TRACE_KAFKA", "true")
 	return env
+}
+
+// ---------------------------------------------------------------- external etcd endpoint lists
+
+// opFakeEndpoints: external etcd endpoints for legs in which nothing dials etcd.
+var opFakeEndpoints = []string{
+	"http://etcd-0.etcd.infra.svc:2379", "http://etcd-1.etcd.infra.svc:2379", "http://etcd-2.etcd.infra.svc:2379",
+	"https://10.0.0.5:2379", "10.0.0.6:2379", "etcd.example.com:2379", "http://[2001:db8::1]:2379",
+}
+
+// opLiveEndpointSpellings returns distinct endpoint strings that all reach the
+// etcd server behind endpoint ("http://127.0.0.1:<port>"): with and without
+// scheme, by name, over ::1 where the server listens there. Each candidate is
+// probed with a real Get; only spellings that answered are returned, the given
+// one first.
+func opLiveEndpointSpellings(t testing.TB, endpoint string) []string {
+	out := []string{endpoint}
+	u, err := url.Parse(endpoint)
+	if err != nil || u.Port() == "" {
+		return out
+	}
+	port := u.Port()
+	cands := []string{u.Hostname() + ":" + port}
+	if u.Hostname() == "127.0.0.1" {
+		cands = append(cands, "http://localhost:"+port, "localhost:"+port, "http://LOCALHOST:"+port, "http://[::1]:"+port, "[::1]:"+port)
+	}
+	for _, c := range cands {
+		cli, err := clientv3.New(clientv3.Config{Endpoints: []string{c}, DialTimeout: 3 * time.Second, Logger: zap.NewNop()})
+		if err != nil {
+			continue
+		}
+		ctx, cancel := context.WithTimeout(context.Background(), 3*time.Second)
+		_, err = cli.Get(ctx, "/verif/probe")
+		cancel()
+		_ = cli.Close()
+		if err == nil {
+			out = append(out, c)
+		} else {
+			t.Logf("endpoint spelling %q not usable: %v", c, err)
+		}
+	}
+	return out
+}
+
+// opGenEndpointList draws 2..5 distinct endpoints out of pool in a PRNG order
+// and, in most draws, makes the list dirty the way a hand-edited spec or
+// environment variable is: repeated entries (also padded with blanks) and empty
+// entries, which the operator's endpoint cleaning has to drop. It returns the
+// list and the number of distinct endpoints in it.
+func opGenEndpointList(rng *rand.Rand, pool []string) ([]string, int) {
+	k := 2 + rng.Intn(4)
+	if k > len(pool) {
+		k = len(pool)
+	}
+	perm := rng.Perm(len(pool))
+	var list []string
+	for i := 0; i < k; i++ {
+		list = append(list, pool[perm[i]])
+	}
+	if rng.Intn(3) > 0 {
+		for i, n := 0, 1+rng.Intn(3); i < n; i++ {
+			var e string
+			switch rng.Intn(4) {
+			case 0:
+				e = ""
+			case 1:
+				e = "  "
+			case 2:
+				e = list[rng.Intn(len(list))]
+			default:
+				e = " " + list[rng.Intn(len(list))] + " "
+			}
+			at := rng.Intn(len(list) + 1)
+			list = append(list[:at], append([]string{e}, list[at:]...)...)
+		}
+	}
+	return list, k
 }
 
 // ---------------------------------------------------------------- names
